@@ -1,6 +1,6 @@
 (* C10 property theorems: statements only; every proof is [exact lemma]. *)
 From Coq Require Import ZArith.
-From Gv Require Import lib.Bytes lib.Json C02.Model C10.Model C10.Spec C10.ProofsStream.
+From Gv Require Import lib.Bytes lib.Json C02.Model C02.Spec C10.Model C10.Spec C10.ProofsStream C10.ProofsRecon C10.ProofsClean C10.ProofsPaths.
 Open Scope N_scope.
 
 (* Every complete run of the defer-tree executor -- any interleaving of "fetch phase of group g
@@ -55,3 +55,63 @@ Proof.
   eexists. split; [vm_compute; reflexivity | vm_compute; reflexivity].
 Qed.
 Print Assumptions stream_wellformed_refuted.
+
+(* ---- reconstruction ----
+   [proj (keepX X)] is the response restricted to the fields without a mark and the fields of
+   the defers X (ProofsRecon); [r_items] are the items of one defer with their paths (the place the
+   envelope was opened); [apply_rel] is the client: every item merged at its path; [jeq] is
+   equality of JSON trees up to the order of object members. *)
+
+(* The initial frame carries exactly the fields without a mark: the response of the empty set of
+   delivered defers. *)
+Theorem reconstruct_initial : forall descs root data,
+  exists rest, fr_json (c_initial descs root data) = JObj ((k_data, proj (keepX []) root data []) :: rest).
+Proof.
+  intros. eexists. unfold c_initial. simpl.
+  rewrite <- (proj_ext (keepX []) (keep_layer None) keepX_nil root data []). reflexivity.
+Qed.
+Print Assumptions reconstruct_initial.
+
+(* One layer: for every plan satisfying defer_plan_wf, every data, every set X of delivered
+   defers that contains the ancestors of d and none of its descendants: the client's merge of the
+   items of d -- each at the path of d's pending entry followed by the item's subPath -- into the
+   response of the layers X gives the response of the layers X + d. *)
+Theorem reconstruct_layer : forall descs root tree d X data,
+  defer_plan_wf descs root tree = true ->
+  find_desc descs (dd_id d) = Some d ->
+  ~ In (dd_id d) X ->
+  (forall c, is_ancestor descs c (dd_parent d) = true -> In c X) ->
+  (forall c, In c X -> is_ancestor descs (dd_id d) (parent_of descs c) = false) ->
+  exists v, merge_layer descs d root data (Some (proj (keepX X) root data [])) = Some v /\
+            jeq v (proj (keepX (dd_id d :: X)) root data []).
+Proof.
+  intros descs root tree d X data Hwf Hfd H1 H2 H3.
+  unfold defer_plan_wf in Hwf.
+  apply andb_true_iff in Hwf. destruct Hwf as [Hwf Hnames].
+  apply andb_true_iff in Hwf. destruct Hwf as [Hwf Hpaths].
+  apply andb_true_iff in Hwf. destruct Hwf as [Hwf Hscope].
+  apply andb_true_iff in Hwf. destruct Hwf as [_ Hroot].
+  rewrite (merge_layer_rel descs d root data _ Hfd Hpaths Hnames Hroot).
+  assert (Hp : parent_of descs (dd_id d) = dd_parent d). { unfold parent_of. rewrite Hfd. reflexivity. }
+  apply (seek_merge descs d Hp X H1 H2 H3 root [] None data [] Hscope Hnames).
+  - intros e [].
+  - discriminate.
+Qed.
+Print Assumptions reconstruct_layer.
+
+(* All layers together are the response of the same plan without defer marks: on data that needs
+   no completion the completion semantics of the erased plan (C02.Spec.complete) reports no error
+   and returns the projection that keeps every field. *)
+Theorem reconstruct_total : forall root data,
+  strict_clean root data [] = true ->
+  complete_root (fun _ _ => false) (erase root) data = (Some (proj keep_all root data []), []).
+Proof. intros. unfold complete_root. apply complete_of_strict_clean. exact H. Qed.
+Print Assumptions reconstruct_total.
+
+(* non-vacuity of reconstruct_layer / reconstruct_total: the example plan, layer 1 on top of the initial data *)
+Example reconstruct_nonvacuous :
+  strict_clean ex_root ex_data [] = true /\
+  merge_layer ex_descs {| dd_id := 1; dd_parent := 0; dd_label := []; dd_path := [] |} ex_root ex_data
+              (Some (proj (keep_layer None) ex_root ex_data []))
+  = Some (JObj [([97], JStr [120]); ([98], JObj [([99], JStr [121])])]).
+Proof. vm_compute. split; reflexivity. Qed.
